@@ -210,9 +210,15 @@ def pyRepr : V → Str
       | .unit => "None".toList
       | .int i =>
           if c == .bool then (if i == 0 then "False".toList else "True".toList)
+          else if c == .FieldInteger then "Integer(".toList ++ intRepr i ++ [')']
+          else if c == .FieldDecimal then "Decimal(".toList ++ intRepr i ++ [')']
+          else if c == .FieldBoolean then (if i == 0 then "Boolean(false)".toList else "Boolean(true)".toList)
           else if c == .float then intRepr i ++ ".0".toList
           else intRepr i
-      | .str s => if c == .PosixPath then "PosixPath(".toList ++ strRepr s ++ [')'] else strRepr s
+      | .str s =>
+          if c == .PosixPath then "PosixPath(".toList ++ strRepr s ++ [')']
+          else if c == .FieldText then "Text(\"".toList ++ s ++ "\")".toList
+          else strRepr s
       | .bytes b => bytesRepr b
   | .seq c l =>
       let inner := joinComma (pyReprL l)
@@ -276,6 +282,7 @@ inductive CtorKind
   | bytesLike    -- bytes
   | floatLike | intLike | boolLike
   | pathLike     -- Path / PosixPath -> PosixPath
+  | fieldLike    -- fileformats field.Integer / Decimal / Text / Boolean (wrap a primitive value)
   | noCtor       -- abstract classes, NoneType, object, range, dict views: the call raises TypeError
   deriving DecidableEq, Repr
 
@@ -289,7 +296,15 @@ def ctorKind : Cls → CtorKind
   | .int => .intLike
   | .bool => .boolLike
   | .Path | .PosixPath => .pathLike
+  | .FieldInteger | .FieldDecimal | .FieldText | .FieldBoolean => .fieldLike
   | _ => .noCtor
+
+/-- which classes carrying an integer payload a fileformats field constructor accepts -/
+def fieldAccepts (tgt c : Cls) : Bool :=
+  if tgt == .FieldInteger then c == .int || c == .bool || c == .FieldInteger
+  else if tgt == .FieldDecimal then isNumCls c || c == .FieldInteger || c == .FieldDecimal
+  else if tgt == .FieldBoolean then isNumCls c || c == .FieldBoolean || c == .FieldInteger
+  else false
 
 def byteOf : V → Option Nat
   | .atom c (.int i) => if (c == .int || c == .bool) && 0 ≤ i && i < 256 then some i.toNat else none
@@ -324,21 +339,33 @@ def construct (tgt : Cls) (v : V) : R V :=
       | _ => tErr
   | .floatLike =>
       match v with
-      | .atom c (.int i) => if isNumCls c then .ok (.atom .float (.int i)) else tErr
+      | .atom c (.int i) =>
+          if isNumCls c || c == .FieldInteger || c == .FieldDecimal then .ok (.atom .float (.int i)) else tErr
       | _ => tErr
   | .intLike =>
       match v with
-      | .atom c (.int i) => if isNumCls c then .ok (.atom .int (.int i)) else tErr
+      | .atom c (.int i) => if isNumCls c || c == .FieldInteger then .ok (.atom .int (.int i)) else tErr
       | _ => tErr
   | .boolLike =>
       match v with
-      | .atom c (.int i) => if isNumCls c then .ok (.atom .bool (.int (if i == 0 then 0 else 1))) else tErr
+      | .atom c (.int i) =>
+          if isNumCls c || c == .FieldBoolean || c == .FieldInteger then .ok (.atom .bool (.int (if i == 0 then 0 else 1)))
+          else tErr
       | _ => tErr
   | .pathLike =>
       match v with
       | .atom c (.str s) =>
           if c == .PosixPath then .ok v
           else if c == .str then .ok (.atom .PosixPath (.str (pathNorm s))) else tErr
+      | _ => tErr
+  | .fieldLike =>
+      match v with
+      | .atom c (.int i) =>
+          if fieldAccepts tgt c then
+            .ok (.atom tgt (.int (if tgt == .FieldBoolean then (if i == 0 then 0 else 1) else i)))
+          else tErr
+      | .atom c (.str s) =>
+          if tgt == .FieldText && (c == .str || c == .FieldText) then .ok (.atom tgt (.str s)) else tErr
       | _ => tErr
   | .noCtor => tErr
 
